@@ -15,6 +15,7 @@ import (
 	"path/filepath"
 	"regexp"
 	"runtime"
+	"strconv"
 	"strings"
 	"sync"
 
@@ -56,6 +57,7 @@ type gfModule struct{ Path, Go string }
 var gfModules = map[string]gfModule{
 	"go1.24":      {"example.com/m", "1.24"},
 	"go1.18":      {"example.com/m", "1.18"},
+	"go1.24.2":    {"example.com/m", "1.24.2"}, // a three-part go directive
 	"go1.21local": {"m", "1.21"}, // a module path without a dot: its packages look like std to an import grouper that ignores ModulePath
 }
 
@@ -114,6 +116,10 @@ func fragScript(mod gfModule, self string, f gfFrag, i int) [][]pipe.ScriptPart 
 		parts = append(parts, t(fmt.Sprintf("// comment %d", i)))
 	case "directive":
 		parts = append(parts, t(fmt.Sprintf("//go:noinline\nfunc D%d() {}", i)))
+	case "group1":
+		parts = append(parts, t(fmt.Sprintf("var (\n\tGS%d = 1\n)", i)))
+	case "octal":
+		parts = append(parts, t(fmt.Sprintf("const O%d = 0644", i)))
 	case "tmpl":
 		parts = append(parts, pipe.ScriptPart{Tmpl: fmt.Sprintf("var U%d @used", i), Used: self + ".T1", Unused: "encoding/xml.Decoder"})
 	}
@@ -215,6 +221,11 @@ func tokensOf(src []byte) []string {
 		}
 		if lit == "" {
 			lit = tok.String()
+		}
+		if tok == token.INT {
+			if v, err := strconv.ParseInt(lit, 0, 64); err == nil {
+				lit = strconv.FormatInt(v, 10) // 0644 and 0o644 are the same literal
+			}
 		}
 		out = append(out, lit)
 	}
@@ -426,6 +437,23 @@ func genfileBatch(self, modName string, idx []int, parsed []gfCase, obsOf, concO
 		}
 		return res, json.Unmarshal(data, &res)
 	}
+	// a first generation with a longer body: the judged run then has to REWRITE an existing, longer file
+	realBodies := bodies
+	longBodies := map[string]string{}
+	for k, v := range realBodies {
+		var script [][]pipe.ScriptPart // functions only: declared types would become types of the package in the judged run
+		_ = v
+		for x := 0; x < 40; x++ {
+			script = append(script, []pipe.ScriptPart{{T: fmt.Sprintf("\nfunc earlierVersion%d() {\n\t// this function is gone in the next version of the generator\n}\n", x)}})
+		}
+		js, _ := json.Marshal(script)
+		longBodies[k] = "SCRIPT:" + string(js)
+	}
+	bodies = longBodies
+	if _, err := run([]string{"./..."}, "pre"); err != nil {
+		return err
+	}
+	bodies = realBodies
 	res, err := run([]string{"./..."}, "all")
 	if err != nil {
 		return err
